@@ -36,14 +36,14 @@ import (
 
 func l1Programs(t string) int {
 	if t == ev.Thorough {
-		return 60
+		return 40
 	}
 	return 12
 }
 
 func l2Programs(t string) int {
 	if t == ev.Thorough {
-		return 3
+		return 2
 	}
 	return 1
 }
@@ -54,15 +54,15 @@ func init() {
 		Level: "exploration",
 		Cases: func(t string) int {
 			if t == ev.Thorough {
-				return 1600
+				return 640
 			}
 			return 96
 		},
 		Batches: func(t string) int { return 16 },
-		Rule:    "each case = 12 (thorough 60) random block programs at level 1 + 1 (thorough 3) at level 2. A program = 8..40 scripted transactions over 5 accounts x 2 slots + the world lock; each declares read/write account locks, world-read or world-write (declared set >= touched set) and runs read / write(unique value derived from tx, op, attempt and everything read so far) / delete / self-revert ops; a fraction fails retryably 1..RetryCount times with attempt-only writes that must vanish. Level 1: WorldContext.GetFuture chain + workers on state.WorldVirtualState exactly as executeTxsConcurrent (token channel of size 2/3/4/8, GetSnapshot, UpdateSystemInfo, Reset on retry, Commit, final Realize), PRNG sleeps/Gosched between ops, GOMAXPROCS 1/2/4/16 per batch. Level 2: service.NewTransition(...).Execute with ConcurrencyLevel 1 vs 2/4/8 on the same parent state. Oracle: plain-map sequential interpreter: every read of every attempt, final values of all slots; real sequential execution: state hash / Result() bytes / every receipt. Non-trivial = distinct program with >=1 read-after-write dependency between different transactions and >=1 pair of independent transactions.",
+		Rule:    "each case = 12 (thorough 40) random block programs at level 1 + 1 (thorough 2) at level 2 (quick 96 cases, thorough 640). A program = 8..40 scripted transactions over 5 accounts x 2 slots + the world lock; each declares read/write account locks, world-read or world-write (declared set >= touched set) and runs read / write(unique value derived from tx, op, attempt and everything read so far) / delete / self-revert ops; a fraction fails retryably 1..RetryCount times with attempt-only writes that must vanish. Level 1: WorldContext.GetFuture chain + workers on state.WorldVirtualState exactly as executeTxsConcurrent (token channel of size 2/3/4/8, GetSnapshot, UpdateSystemInfo, Reset on retry, Commit, final Realize), PRNG sleeps/Gosched between ops, GOMAXPROCS 1/2/4/16 per batch. Level 2: service.NewTransition(...).Execute with ConcurrencyLevel 1 vs 2/4/8 on the same parent state. Oracle: plain-map sequential interpreter: every read of every attempt, final values of all slots; real sequential execution: state hash / Result() bytes / every receipt. Non-trivial = distinct program with >=1 read-after-write dependency between different transactions and >=1 pair of independent transactions.",
 		MinNonTrivial: func(t string) int {
 			if t == ev.Thorough {
-				return 40000
+				return 15000
 			}
 			return 600
 		},
